@@ -16,6 +16,8 @@ Robustness sweeps of the rules against behaviour-preserving changes of *shape* (
   cmp_flip     the first comparison with side-effect-free operands in a statement is written the other way round (`a < b` -> `b > a`, `x is None` -> `None is x`);
   tern_expand  `x = a if c else b` / `return a if c else b` becomes an if statement;
   aug_expand   `x += 1` becomes `x = x + 1` (numeric constants only);
+  lit_ctor     the first empty literal of a statement is spelled as a constructor call (`[]` -> `list()`, `{}` -> `dict()`, `()` -> `tuple()`);
+  ret_local    `return <expression>` becomes `_rv = <expression>; return _rv`;
   move_method  every undecorated method (not used by the class body itself) is moved to the end of its class.
 
 Neither changes what the program does, so every finding on such a variant is a false alarm of a rule that matched the
